@@ -72,8 +72,8 @@ def run_rule(run, rule_id="C09.resize"):
     mod = run.idx.mod(TQ)
     f = mod.func("TypeQualifier.resize")
     for kind in ("Unsigned", "Signed"):
-        for w in (1, 2, 3, 4):
-            for zeros in (0, 1, 2, 3):
+        for w in run.bound((1, 2, 3, 4), (1, 2, 3, 4, 5, 8)):
+            for zeros in run.bound((0, 1, 2, 3), (0, 1, 2, 3, 4, 7)):
                 for extra in (None, 0, 2):
                     x = BV.sym("x", w, kind)
                     tw = None if extra is None else w + zeros + extra
